@@ -408,7 +408,7 @@ func (cr *caseRun) run() int {
 		if r.Type == "GrafanaNet" {
 			// its Shutdown is C17's business (it used to block forever): probe once with a short deadline,
 			// the parent tells later children to skip the probe
-			if os.Getenv("VERIF_ADM_SKIP_GNET_SHUTDOWN") == "1" || !guarded(3*time.Second, func() { cr.tbl.DelRoute(key) }) {
+			if os.Getenv("VERIF_ADM_SKIP_GNET_SHUTDOWN") == "1" || !guarded(10*time.Second, func() { cr.tbl.DelRoute(key) }) {
 				gnetHang = os.Getenv("VERIF_ADM_SKIP_GNET_SHUTDOWN") != "1"
 				cr.dirty = true
 				break
